@@ -222,6 +222,14 @@ def imported_modules(prop):
 # =====================================================================================================
 # step 3: correspondence + oracles
 # =====================================================================================================
+def hashseed_of(job):
+    """the interpreter's string-hash seed (order of sets, collisions in dicts): fixed per job, different between jobs"""
+    if job.get('hashseed') is not None:
+        return job['hashseed']
+    import zlib
+    return zlib.crc32(f"{job.get('seed')}/{job.get('component')}/{job.get('profile')}".encode()) % 4294967295
+
+
 def run_job(job):
     os.makedirs(SCRATCH, exist_ok=True)
     d = tempfile.mkdtemp(dir=SCRATCH)
@@ -229,8 +237,8 @@ def run_job(job):
         jf, of = os.path.join(d, 'job.json'), os.path.join(d, 'out.json')
         json.dump(job, open(jf, 'w'))
         try:
-            r = sh([PY, os.path.join(HARN, 'worker.py'), jf, of], timeout=job.get('timeout', 3000),
-                   env=dict(os.environ, VERIF_REPO=REPO, PYTHONDONTWRITEBYTECODE='1'))
+            r = sh([PY] + list(job.get('pyflags') or []) + [os.path.join(HARN, 'worker.py'), jf, of], timeout=job.get('timeout', 3000),
+                   env=dict(os.environ, VERIF_REPO=REPO, PYTHONDONTWRITEBYTECODE='1', PYTHONHASHSEED=str(hashseed_of(job))))
         except subprocess.TimeoutExpired:
             return {'cases': [], 'error': 'worker timed out'}
         if not os.path.exists(of):
@@ -276,6 +284,12 @@ def explore(prop, tier, seed, have_driver, extra_lines=None, scale=1):
                      'exhaustive': j.get('exhaustive') in (tier, 'both', True) or (j.get('exhaustive') == 'quick' and tier == 'thorough'),
                      'lines': corpus_lines(j['component']) + (extra_lines or {}).get(j['component'], []),
                      'props': [prop], 'project': j.get('project')})
+    # the same generators once more, smaller, with the interpreter stripping assert statements (python -O): what the library
+    # does must not hang on an `assert` being executed.  Judged by the oracles only: where the code *uses* AssertionError
+    # to refuse something, the model (of the default interpreter) and the code rightly differ.
+    for j in list(jobs):
+        if j['n'] and not (j.get('profile') or '').startswith('all-'):
+            jobs.append(dict(j, n=max(40, j['n'] // 6), seed=f"{j['seed']}-O", pyflags=['-O'], exhaustive=False, lines=j['lines']))
     jobs = shard(jobs, tier)
     with concurrent.futures.ThreadPoolExecutor(max_workers=14) as ex:
         results = list(ex.map(run_job, jobs))
@@ -286,14 +300,24 @@ def explore(prop, tier, seed, have_driver, extra_lines=None, scale=1):
         for c in r['cases']:
             c['component'] = j['component']
             c['project'] = j.get('project')
+            if j.get('pyflags'):
+                c['pyflags'] = j['pyflags']
+            c['hashseed'] = hashseed_of(j)
             cases.append(c)
     # de-duplicate identical lines (corpus + shards)
     seen, uniq = set(), []
     for c in cases:
-        if c['line'] not in seen:
-            seen.add(c['line'])
+        key = (c['line'], tuple(c.get('pyflags') or ()))
+        if key not in seen:
+            seen.add(key)
             uniq.append(c)
     cases = uniq
+    n_spec = finish(cases, have_driver, errors)
+    return cases, errors, n_spec
+
+
+def finish(cases, have_driver, errors, strict=True):
+    """the model's answer to every case, and the oracles that are questions to the Lean specification"""
     # the model's answers
     if have_driver and cases:
         model = run_driver_parallel([c.get('model_line') or c['line'] for c in cases], 'Driver')
@@ -303,12 +327,14 @@ def explore(prop, tier, seed, have_driver, extra_lines=None, scale=1):
     else:
         model = [None] * len(cases)
     for c, m in zip(cases, model):
-        c['model'] = m
+        c['model'] = m if not c.get('pyflags') else None
     # cross-check of the harness's reference implementations against the Lean specification
     spec_lines = [(c, s) for c in cases for s in c.get('spec', [])]
     if spec_lines:
         outs = run_driver_parallel([s['line'] for _, s in spec_lines], 'SpecDriver')
         if outs is None:
+            if not strict:
+                raise RuntimeError('specification driver failed')
             print('infrastructure: the specification driver failed to run', file=sys.stderr)
             sys.exit(2)
         for (c, s), o in zip(spec_lines, outs):
@@ -322,10 +348,30 @@ def explore(prop, tier, seed, have_driver, extra_lines=None, scale=1):
                 c['recs'].append({'prop': s['prop'], 'ok': ok, 'expected': o[:600], 'observed': s['expect'][:600],
                                   'what': s['what'], 'spec_line': s['line'][:300]})
             elif o != s['expect']:
+                if not strict:
+                    c['invalid'] = True
+                    continue
                 print(f'infrastructure: the harness reference disagrees with the Lean specification on {s["line"][:200]}: '
                       f'{s["expect"][:200]} vs {o[:200]}', file=sys.stderr)
                 sys.exit(2)
-    return cases, errors, len(spec_lines)
+    return len(spec_lines)
+
+
+def evaluate(prop, component, lines, have_driver=True, proj=None, strict=True, pyflags=None, hashseed=None):
+    """the given lines of one component through the real code, the model and the oracles of `prop`"""
+    r = run_job({'component': component, 'lines': list(lines), 'n': 0, 'seed': 0, 'props': [prop], 'pyflags': pyflags, 'hashseed': hashseed})
+    if r['error']:
+        raise RuntimeError(r['error'])
+    cases = r['cases']
+    for c in cases:
+        c['component'], c['project'] = component, proj
+        if pyflags:
+            c['pyflags'] = pyflags
+    errors = []
+    finish(cases, have_driver, errors, strict=strict)
+    if errors:
+        raise RuntimeError('; '.join(errors))
+    return cases
 
 
 def run_driver_parallel(lines, which):
@@ -381,15 +427,52 @@ def finding_for(prop, case, rec):
     return None
 
 
+def shrink_case(prop, c, r, budget_s=8.0):
+    """a smaller input on which the same oracle of the property still fails on the real code (harness/shrink.py)"""
+    import shrink
+    comp = c['component']
+    if os.environ.get('VERIF_NO_SHRINK') or comp not in shrink.MODES:
+        return c, r
+
+    def failing(case):
+        if case.get('invalid'):
+            return None
+        for q in case['recs']:
+            if q['prop'] == prop and q['ok'] is False and q['what'] == r['what']:
+                return q
+        return None
+
+    def still(lines):
+        by = {x['line']: x for x in evaluate(prop, comp, lines, have_driver=False, proj=c.get('project'), strict=False, pyflags=c.get('pyflags'), hashseed=c.get('hashseed'))}
+        return [l in by and failing(by[l]) is not None for l in lines]
+    try:
+        line, rounds, tried = shrink.shrink(comp, c['line'], still, budget_s=budget_s)
+        if line == c['line']:
+            return c, r
+        c2 = evaluate(prop, comp, [line], have_driver=True, proj=c.get('project'), strict=False, pyflags=c.get('pyflags'), hashseed=c.get('hashseed'))[0]
+        r2 = failing(c2)
+        if r2 is None:
+            return c, r
+        c2['hashseed'] = c.get('hashseed')
+        c2['shrunk'] = {'original_input': c['line'], 'rounds': rounds, 'candidates_tried': tried}
+        return c2, r2
+    except Exception:
+        return c, r
+
+
 def write_replay(prop, kind, case, rec, broken, seed):
     os.makedirs(os.path.join(ROOT, 'replays'), exist_ok=True)
     ident = sha((case['line'] if case else '') + '|' + '|'.join(b[:80] for b in broken) + '|' + kind)
     path = os.path.join('replays', f'{prop}-{ident}.json')
     dump({'property': prop, 'kind': kind, 'component': case.get('component') if case else None,
+          'project': case.get('project') if case else None,
+          **({'interpreter_flags': case['pyflags']} if case and case.get('pyflags') else {}),
+          **({'hashseed': case['hashseed']} if case and case.get('hashseed') is not None else {}),
           'input': case['line'] if case else None,
           'expected': (rec or {}).get('expected'), 'observed': (rec or {}).get('observed') or (case['real'] if case else None),
           'model': case.get('model') if case else None, 'what': (rec or {}).get('what'),
-          'broken': broken, 'replay_cmd': f'./check {prop} --replay {path}', 'seed': seed},
+          'broken': broken, 'replay_cmd': f'./check {prop} --replay {path}', 'seed': seed,
+          **({'shrunk': case['shrunk']} if case and case.get('shrunk') else {})},
          os.path.join(ROOT, path))
     return path
 
@@ -508,6 +591,8 @@ def main():
             if key in reported:
                 continue
             reported.add(key)
+            if sum(1 for k in reported if k[0] == 'v') <= 2:
+                c, r = shrink_case(prop, c, r)
             path = write_replay(prop, 'failing-input', c, r, broken, seed)
             if ('p', path) not in reported:
                 reported.add(('p', path))
@@ -535,17 +620,22 @@ def replay(prop, path):
         broken, info = build_and_audit(prop, 'quick')
         print('now: ' + ('; '.join(broken) if broken else 'proofs and audit check'))
         return 1 if broken else 0
-    job = {'component': rp['component'], 'lines': [rp['input']], 'n': 0, 'seed': 0, 'props': [prop]}
-    r = run_job(job)
-    if r['error'] or not r['cases']:
-        print('replay could not run: ' + str(r['error']), file=sys.stderr)
+    lake_build(['driver', 'specdriver'])
+    try:
+        c = evaluate(prop, rp['component'], [rp['input']], have_driver=True, proj=rp.get('project'), strict=False,
+                     pyflags=rp.get('interpreter_flags'), hashseed=rp.get('hashseed'))[0]
+    except (RuntimeError, IndexError) as e:
+        print('replay could not run: ' + str(e), file=sys.stderr)
         return 2
-    c = r['cases'][0]
-    model = run_driver([c.get('model_line') or c['line']], 'Driver')
+    model = [c['model']] if c.get('model') is not None else None
+    if rp.get('interpreter_flags'):
+        print('interpreter flags ' + ' '.join(rp['interpreter_flags']))
     print('input    ' + c['line'][:2000])
     print('code     ' + str(c['real'])[:2000])
     print('model    ' + (model[0][:2000] if model else '(model driver unavailable)'))
     bad = False
+    if model and project(c.get('project'), c['real']) != project(c.get('project'), c['model']):
+        print('correspondence: model and code differ on the observables of the property')
     for rec in c['recs']:
         if rec['prop'] == prop:
             print(f'oracle   ok={rec["ok"]} {rec["what"]}')
